@@ -43,10 +43,11 @@ class ContractError(Exception):
 
 # ------------------------------------------------------------------ symbolic values
 class SV:
-    __slots__ = ("kind", "t", "hint", "items", "py")
+    __slots__ = ("kind", "t", "hint", "items", "py", "tv")
 
     def __init__(self, kind, t=None, hint=None, items=None, py=None):
         self.kind, self.t, self.hint, self.items, self.py = kind, t, hint, items, py
+        self.tv = None      # truth value computed structurally (x and y / x or y of mixed kinds), when known
 
     def __repr__(self):
         return f"SV({self.kind},{self.t if self.t is not None else self.items or self.py},{self.hint})"
@@ -327,6 +328,8 @@ class Exec:
 
     def truth(self, sv, st):
         """Python truthiness as a z3 Bool"""
+        if sv.tv is not None:
+            return sv.tv
         k = sv.kind
         if k == "bool":
             return sv.t
@@ -796,6 +799,10 @@ def _patch_engine():
                 acc = self.ite_sv(tv, acc, v, st)
             else:
                 acc = self.ite_sv(tv, v, acc, st)
+        # the truth of the result is the conjunction / disjunction of the operands' truths (exact, whatever the value's kind)
+        ts = [self.truth(v, st) for v in vals]
+        acc = SV(acc.kind, acc.t, acc.hint, acc.items, acc.py)
+        acc.tv = And(*ts) if isinstance(node.op, ast.And) else Or(*ts)
         return acc
     E.pev_BoolOp = pev_BoolOp
 
@@ -809,7 +816,8 @@ def _patch_engine():
             return SV("tuple", items=[self.ite_sv(c, x, y, st) for x, y in zip(a.items, b.items)])
         if a.kind in ("seq", "tuple") and b.kind in ("seq", "tuple"):
             return SV("seq", If(c, self.as_seq(a, st), self.as_seq(b, st)))
-        return SV("v", If(c, self.to_v(a), self.to_v(b)), a.hint if a.kind == "v" else b.hint if b.kind == "v" else None)
+        # operands of different kinds (e.g. an object and a bool): the result has no single class
+        return SV("v", If(c, self.to_v(a), self.to_v(b)), None)
     E.ite_sv = ite_sv
 
     def pev_IfExp(self, node, st, m):
@@ -1770,6 +1778,41 @@ def _patch_exec():
         self.ev(nodes[0], st, ctx, lambda sv, st2: self.ev_list(nodes[1:], st2, ctx, k, acc + [sv]))
     E.ev_list = ev_list
 
+    def comp_overapprox(self, node, st, ctx, k):
+        """[f(x) for x in S (if c)]: a fresh list of S's length (at most, with a filter) whose elements are arbitrary values --
+        tuples of the displayed arity when f is a tuple display; evaluating f may raise (Exception branch).  Sound
+        over-approximation for contracts that do not depend on the elements."""
+        if len(node.generators) != 1:
+            return False
+        g = node.generators[0]
+        n_src = None
+        try:
+            if isinstance(g.iter, ast.Call) and isinstance(g.iter.func, ast.Attribute) and g.iter.func.attr in ("items", "keys", "values") and not g.iter.args:
+                d = self.pev(g.iter.func.value, st, Mode(False))
+                if d.kind == "v" and d.hint == "dict":
+                    n_src = L.slen(self.hget(st, "$dkeys", d.t))
+            if n_src is None and self.is_pure(g.iter, st):
+                n_src = L.slen(self.as_seq(self.pev(g.iter, st, Mode(False, None, None)), st))
+        except (OutOfSubset, ContractError):
+            return False
+        if n_src is None:
+            return False
+        rseq = self.fresh("comp", Sq)
+        facts = [L.slen(rseq) <= n_src] if g.ifs else [L.slen(rseq) == n_src]
+        if isinstance(node.elt, ast.Tuple):
+            i = Int("ci")
+            facts.append(ForAll([i], Implies(And(0 <= i, i < L.slen(rseq)), And(L.is_tup(L.at(rseq, i)), L.slen(L.sunbox(L.at(rseq, i))) == len(node.elt.elts))),
+                                patterns=[L.at(rseq, i)]))
+        self.assumptions.add("mapping comprehensions are over-approximated: a new list of the source's length (at most that, with a filter) with arbitrary "
+                             "elements (tuples of the displayed arity); evaluating the element expression may raise")
+        simple = isinstance(node.elt, ast.Name) or (isinstance(node.elt, ast.Tuple) and all(isinstance(e, ast.Name) for e in node.elt.elts))
+        if not simple or g.ifs:
+            ctx.exc("Exception", st.copy(notes=st.notes + (f"L{self.rel_line(node)}:comprehension-raises",)), node)
+        r, st2 = self.new_list(st.assume(*facts), rseq)
+        k(r, st2)
+        return True
+    E.comp_overapprox = comp_overapprox
+
     def ev_comp(self, node, st, ctx, k):
         """comprehensions in code: pure filter form only (allocates the result)"""
         if isinstance(node, ast.ListComp) and len(node.generators) == 1:
@@ -1801,7 +1844,13 @@ def _patch_exec():
                         return self.branch_checks([(n0 <= L.slen(sq), "IndexError", node)], st1, ctx, cont)
                     return self.ev(g.iter.args[0], st, ctx, got_n)
         if isinstance(node, ast.ListComp):
-            sv = self.pev_ListComp(node, st, Mode(False, None, None))
+            try:
+                sv = self.pev_ListComp(node, st, Mode(False, None, None))
+            except OutOfSubset:
+                ov = self.comp_overapprox(node, st, ctx, k)
+                if ov:
+                    return
+                raise
             r, st2 = self.new_list(st, sv.t)
             return k(r, st2)
         if isinstance(node, ast.SetComp):
@@ -2834,6 +2883,8 @@ def _patch_calls():
                 if recv_node is not None:
                     ast.copy_location(recv_node, node)
                     ast.fix_missing_locations(recv_node)
+                if spec.get("ghost"):
+                    call._ghost_binds = spec["ghost"]      # callee ghost parameter -> expression over the caller's state
                 k2 = k
                 if spec.get("returns"):
                     # the call site knows more about the result's class than the callee's (generic) contract does
@@ -3332,6 +3383,12 @@ def _patch_calls():
                 env[nm] = self.pev(defaults[nm], st, Mode(True))
             else:
                 raise ContractError(f"call of {fnc.key}: missing argument {nm}")
+        # rigid ghost parameters of the callee, given by the call-site spec as expressions over the caller's state
+        for gname, gexpr in (getattr(node, "_ghost_binds", None) or {}).items():
+            gsv = self.pev(ast.parse(gexpr, mode="eval").body, st, Mode(True, self.st0))
+            if type_hint(fnc.types.get(gname, "v"))[0] == "seq" and gsv.kind != "seq":
+                gsv = SV("seq", self.as_seq(gsv, st))
+            env[gname] = gsv
         # coerce hints from callee types
         for nm, ty in fnc.types.items():
             if nm in env and env[nm].kind == "v" and env[nm].hint is None:
